@@ -241,6 +241,5 @@ def run(check, ctx):
     # EdDSA verification ends in a point comparison: the native point layer on the cases of the group law
     from . import c_ed
     c_ed.ed_tables(check, ctx, groups=("points",))
-    check.undecided.append("accepted signatures are exactly the standard's valid "
-                           "ones (curve and modular arithmetic); byte-exact "
-                           "deterministic outputs; RFC 6979 loop arithmetic")
+    check.undecided.append("the verification equations on the real groups for all operands (decided on complete toy groups and, natively, on case tables); "
+                           "EdDSA sign/verify composition values; the RFC 6979 HMAC_DRBG loop")
